@@ -186,6 +186,22 @@ func init() {
 				s, err := bip39.MnemonicToSeed(mn(badCk), "x")
 				return fp(s, err != nil)
 			}},
+			{"UnmarshalText(plain ASCII sentence in a re-used buffer)", fp(w1), func(a *arena) string {
+				var m bip39.Mnemonic
+				if err := m.UnmarshalText(a.buf(2, []byte(strings.Join(w1, " ")))); err != nil {
+					return err.Error()
+				}
+				a.hold = func() string { return fp([]string(m)) }
+				return fp([]string(m))
+			}},
+			{"UnmarshalText(tabs and newline)", fp(w1), func(a *arena) string {
+				var m bip39.Mnemonic
+				if err := m.UnmarshalText(a.buf(2, []byte("\t"+strings.Join(w1, "\t")+"\n"))); err != nil {
+					return err.Error()
+				}
+				a.hold = func() string { return fp([]string(m)) }
+				return fp([]string(m))
+			}},
 			{"ParseMnemonic", fp(parseWant), func(a *arena) string {
 				m := bip39.ParseMnemonic(parseIn)
 				f := fp([]string(m))
